@@ -6,7 +6,7 @@ use crate::real::{bytes_of, empty, hex_text, Pred, G};
 use serde_json::{json, Value};
 use std::path::PathBuf;
 
-#[derive(Clone, Debug, PartialEq, Eq, Hash)]
+#[derive(Clone, Debug, PartialEq)]
 pub enum Call {
     Add { v: usize },
     Bind { v1: usize, v2: usize, a: String },
@@ -17,12 +17,13 @@ pub enum Call {
     Reload { dst: usize },
     Slice { dst: usize, v: usize, p: Pred },
     Merge { src: usize, left: usize, right: usize },
-    Deploy { text: String },
+    /// text to deploy; `prog` (structured commands) and `fault_at` travel along for the judge
+    Deploy { text: String, prog: Value, fault_at: usize },
     New { n: usize, cap: usize },
 }
 
 /// A call addressed to a handle.
-#[derive(Clone, Debug, PartialEq, Eq, Hash)]
+#[derive(Clone, Debug, PartialEq)]
 pub struct HCall {
     pub h: usize,
     pub call: Call,
@@ -40,7 +41,7 @@ impl HCall {
             Call::Reload { dst } => json!({"op":"reload","dst":dst}),
             Call::Slice { dst, v, p } => json!({"op":"slice","dst":dst,"v":v,"p":p.to_json()}),
             Call::Merge { src, left, right } => json!({"op":"merge","src":src,"left":left,"right":right}),
-            Call::Deploy { text } => json!({"op":"deploy","text":text}),
+            Call::Deploy { text, prog, fault_at } => json!({"op":"deploy","text":text,"prog":prog,"fault_at":fault_at}),
             Call::New { n, cap } => json!({"op":"new","n":n,"cap":cap}),
         };
         o["h"] = json!(self.h);
@@ -59,7 +60,7 @@ impl HCall {
             "reload" => Call::Reload { dst: u("dst") },
             "slice" => Call::Slice { dst: u("dst"), v: u("v"), p: Pred::from_json(&v["p"]) },
             "merge" => Call::Merge { src: u("src"), left: u("left"), right: u("right") },
-            "deploy" => Call::Deploy { text: s("text") },
+            "deploy" => Call::Deploy { text: s("text"), prog: v.get("prog").cloned().unwrap_or(json!([])), fault_at: v.get("fault_at").and_then(|x| x.as_u64()).unwrap_or(0) as usize },
             "new" => Call::New { n: u("n"), cap: u("cap") },
             o => panic!("unknown op {o}"),
         };
@@ -196,7 +197,7 @@ impl World {
                 self.gs[*src] = Some(other);
                 r
             }
-            Call::Deploy { text } => match self.gs[h].as_mut().unwrap().deploy(text) {
+            Call::Deploy { text, .. } => match self.gs[h].as_mut().unwrap().deploy(&text.replace("%NU%", "ν")) {
                 Err(p) => Ret::Panic(p),
                 Ok(Err(e)) => Ret::Err(e),
                 Ok(Ok(c)) => Ret::Count(c),
@@ -252,4 +253,44 @@ fn wrap<T>(r: Result<T, String>, f: impl FnOnce(T) -> Ret) -> Ret {
         Ok(x) => f(x),
         Err(p) => Ret::Panic(p),
     }
+}
+
+
+/// Apply a structured program (ScriptGen's commands) through the API: the "same API calls" a script stands for.
+/// Each variable is one next_id() result taken at its first mention; a BIND resolves v1 before v2.
+pub fn apply_program(g: &mut dyn G, prog: &Value, upto: usize) -> Result<(), String> {
+    let mut tab: std::collections::HashMap<String, usize> = std::collections::HashMap::new();
+    fn resolve(g: &mut dyn G, tab: &mut std::collections::HashMap<String, usize>, r: &Value) -> Result<usize, String> {
+        if r["k"] == "lit" {
+            Ok(r["id"].as_u64().unwrap() as usize)
+        } else {
+            let name = r["name"].as_str().unwrap().to_string();
+            if let Some(v) = tab.get(&name) {
+                Ok(*v)
+            } else {
+                let id = g.next_id()?;
+                tab.insert(name, id);
+                Ok(id)
+            }
+        }
+    }
+    for c in prog.as_array().unwrap().iter().take(upto) {
+        match c["c"].as_str().unwrap() {
+            "ADD" => {
+                let v = resolve(g, &mut tab, &c["v"])?;
+                g.add(v)?;
+            }
+            "BIND" => {
+                let v1 = resolve(g, &mut tab, &c["v1"])?;
+                let v2 = resolve(g, &mut tab, &c["v2"])?;
+                g.bind(v1, v2, c["a"].as_str().unwrap())?;
+            }
+            "PUT" => {
+                let v = resolve(g, &mut tab, &c["v"])?;
+                g.put(v, &bytes_of(c["d"].as_str().unwrap()))?;
+            }
+            x => panic!("bad command {x}"),
+        }
+    }
+    Ok(())
 }
